@@ -32,6 +32,8 @@ structure DSt where
   mt : Nat := 0
   /-- the commit worker is spinning in SetBatch: nothing returns any more -/
   dead : Bool := false
+  /-- the case was opened with Options.MemTableSize = 0 -/
+  mtZero : Bool := false
   /-- false when the cfg line does not carry q.getClosed (C37 runs: for a `Get` after Close only
       "it returned" matters there, both sides print `returned`) -/
   getKnown : Bool := false
@@ -80,6 +82,7 @@ def setCfg (st : DSt) (kv : String) : Option DSt :=
       else none
     | "lsm.batchFitOp" => do let o ← CmpOp.ofString? v; pure { st with pcfg := { st.pcfg with fitOp := o } }
     | "lsm.rotateGuardOp" => do let o ← CmpOp.ofString? v; pure { st with pcfg := { st.pcfg with guardOp := o } }
+    | "lsm.sizeDefaulted" => do let b ← boolOfString? v; pure { st with pcfg := { st.pcfg with sizeDefaulted := b } }
     | "lsm.oversizeAlone" => do let b ← boolOfString? v; pure { st with pcfg := { st.pcfg with oversizeAlone := b } }
     | "q.getGuard" => do let b ← boolOfString? v; pure { st with wcfg := { st.wcfg with getGuard := b } }
     | "q.exitCheckOrder" =>
@@ -173,7 +176,10 @@ def specWrite (st : DSt) : String :=
   else "ok|hot|toobig|blocked|emptykey|pending"
 
 def doCall (st : DSt) (t : Nat) (op : Op) : DSt × String :=
-  if !(isIdle st.s t) || st.outstanding.contains t || st.parked.any (fun e => e.1 == t) then (st, "busy\t*")
+  -- a zero memtable budget: the first write that reaches the LSM wedges the commit worker
+  if st.mtZero && effSize st.pcfg 0 == 0 && op.isWrite && op.key != [] && st.s.clPc == 0 then
+    ({ st with dead := true }, "stuck\tok")
+  else if !(isIdle st.s t) || st.outstanding.contains t || st.parked.any (fun e => e.1 == t) then (st, "busy\t*")
   else
     let specCol := if op.isWrite then specWrite st else specRead st op.key
     match step st.cfg st.p st.s (.call t op) with
@@ -209,7 +215,7 @@ def stepD (st : DSt) (toks : List String) : DSt × String :=
       wbSize := parseNatKV kvs "wbs" 1048576, hotLimit := parseNatKV kvs "hot" 0,
       valThreshold := parseNatKV kvs "vt" 1024 }
     ({ st with p := p, s := St.init 8, parked := [], atClose := [], outstanding := [], spec := [],
-               mt := parseNatKV kvs "mt" 0, dead := false }, "ok\t*")
+               mt := parseNatKV kvs "mt" 0, dead := false, mtZero := parseNatKV kvs "mtzero" 0 == 1 }, "ok\t*")
   -- `setfill t k free delta`: a write whose size estimate is (free space of the active
   -- memtable, as reported by the implementation) + delta - 2^20; the value stays inline
   | ["setfill", t, k, free, d] =>
